@@ -1,7 +1,7 @@
 (** C04 - canonical form: equal contents always produce the identical root.
     Statements only; proofs are in Inv.v / Hist.v / Build.v. *)
 From Coq Require Import List NArith ZArith Bool.
-From Mast Require Import Prim Key Tree KeyOrder Codec Store Diff World Erase Build Spec Canon Level Inv Hist.
+From Mast Require Import Reload WorldInv Prim Key Tree KeyOrder Codec Store Diff World Erase Build Spec Canon Level Inv Hist.
 Import ListNotations.
 
 Section GENERIC.
@@ -52,6 +52,20 @@ Theorem C04_canonical_partial : forall ops1 ops2 t1 t2 tr1 tr2 bf l,
                 erase_n _ _ n1 = erase_n _ _ n2.
 Proof. exact same_entries_same_tree. Qed.
 
+(** The same with persist and reload points, many trees and many stores (binary format; side
+    conditions [conds] as in C01_refines_sorted_map): by whatever histories two trees were reached -
+    inserted in any order, grown and shrunk, cloned, persisted, reloaded from any store - equal
+    contents and branch factor give equal height, size and shape. *)
+Theorem C04_canonical : forall ops1 ops2 t1 t2 tr1 tr2 x1 x2,
+  conds empty_world ([], []) ops1 -> conds empty_world ([], []) ops2 ->
+  aget (w_trees (wrun empty_world ops1)) t1 = Some tr1 -> aget (fst (awrun2 ([], []) ops1)) t1 = Some x1 ->
+  aget (w_trees (wrun empty_world ops2)) t2 = Some tr2 -> aget (fst (awrun2 ([], []) ops2)) t2 = Some x2 ->
+  at_bf x1 = at_bf x2 -> at_l x1 = at_l x2 ->
+  m_height _ _ (t_m tr1) = m_height _ _ (t_m tr2) /\ m_size _ _ (t_m tr1) = m_size _ _ (t_m tr2) /\
+  exists n1 n2, root_n _ _ (m_root _ _ (t_m tr1)) = Some n1 /\ root_n _ _ (m_root _ _ (t_m tr2)) = Some n2 /\
+                erase_n _ _ n1 = erase_n _ _ n2.
+Proof. exact same_entries_same_tree2. Qed.
+
 (** non-vacuity and the repaired defects: the shrink threshold of the pinned code (D8: size < bf^h
     instead of size <= bf^h) violates the height rule on a concrete history *)
 Local Open Scope N_scope.
@@ -70,3 +84,4 @@ Print Assumptions C04_height_rule.
 Print Assumptions C04_height_unique.
 Print Assumptions C04_unique.
 Print Assumptions C04_canonical_partial.
+Print Assumptions C04_canonical.
